@@ -2,9 +2,11 @@ package main
 
 func init() {
 	register(&propDef{ID: "C11", Title: "Allocation keys are unambiguous and the API releases what it lists",
-		Explanation: "Decides: (R1) ListIPs and ReleaseIPs give NewKeyObj the statefulset prefix constant on the appType==\"\" edge and GetAppTypePrefix(appType) otherwise (a dead store of the default is a missing phi), and reject an empty prefix before building a key; (R2) every constant app-type prefix FormatKey can store, and the image of a custom kind, is a fixed point of GetAppTypePrefix∘GetAppType — decided by folding the compile-time constants through the SSA of the two functions (constant propagation, no execution of galaxy code); (R3) KeyObj.KeyInDB is written only in package util, writer format and parser agree on separator, number of parts and the pool prefix constant. (R6) the releasers reached from the release API free an ip only behind the 'key unchanged' and 'not running' edges (shared with C01/C04), and a computed app-type prefix stored by FormatKey is GetAppTypePrefix(kind); (R5) the page window uses one size value for offset, length and the reported size, and the release loop ranges over the very slice the parsed requests were appended to (no filter or sub-slice between parse and release). Does not decide injectivity over all DNS-1123 names, nor the sorting part of the paging clause (a law over runtime slices and comparators). (R7) in ByKeyword, ByPrefix and listIPs no append to the result is followed by a second one within the same iteration. (R8) in convert, Namespace / AppName / PodName / PoolName are plain reads of ParseKey(key) and AppType is GetAppType(<its prefix>), without a case distinction on the owner kind. (R9) in ListIPs the sort precedes Pagination on every path and does not sort a sub-slice. (R10) no argument of NewKeyObj in ReleaseIPs derives from an IPAM lookup or from convert(). (R11) Pagination never merges the page parameter with another value. (R12 = C04.R1) the release API re-reads the ip under the pod lock. (R13) the comparators of the list API (closures of sortFunc and the helpers they call) contain no positional comparison that tests one direction only. (R14) in genKey a KeyInDB without pod name is stored only behind `AppName == \"\"`. (R15 = C03.R9) key-wide release only from unbind.",
+		Explanation: "Decides: (R1) ListIPs and ReleaseIPs give NewKeyObj the statefulset prefix constant on the appType==\"\" edge and GetAppTypePrefix(appType) otherwise (a dead store of the default is a missing phi), and reject an empty prefix before building a key; (R2) every constant app-type prefix FormatKey can store, and the image of a custom kind, is a fixed point of GetAppTypePrefix∘GetAppType — decided by folding the compile-time constants through the SSA of the two functions (constant propagation, no execution of galaxy code); (R3) KeyObj.KeyInDB is written only in package util, writer format and parser agree on separator, number of parts and the pool prefix constant. (R6) the releasers reached from the release API free an ip only behind the 'key unchanged' and 'not running' edges (shared with C01/C04), and a computed app-type prefix stored by FormatKey is GetAppTypePrefix(kind); (R5) the page window uses one size value for offset, length and the reported size, and the release loop ranges over the very slice the parsed requests were appended to (no filter or sub-slice between parse and release). Does not decide injectivity over all DNS-1123 names, nor the sorting part of the paging clause (a law over runtime slices and comparators). (R7) in ByKeyword, ByPrefix and listIPs no append to the result is followed by a second one within the same iteration. (R8) in convert, Namespace / AppName / PodName / PoolName are plain reads of ParseKey(key) and AppType is GetAppType(<its prefix>), without a case distinction on the owner kind. (R9) in ListIPs the sort precedes Pagination on every path and does not sort a sub-slice. (R10) no argument of NewKeyObj in ReleaseIPs derives from an IPAM lookup or from convert(). (R11) Pagination never merges the page parameter with another value. (R12 = C04.R1) the release API re-reads the ip under the pod lock. (R13) the comparators of the list API (closures of sortFunc and the helpers they call) contain no positional comparison that tests one direction only. (R14) in genKey a KeyInDB without pod name is stored only behind `AppName == \"\"`. (R15 = C03.R9) key-wide release only from unbind. (R17) the loop of ReleaseIPs around releaseFunc is left only when the posted requests are exhausted (no break / return out of its body).",
 		Assumptions: []string{"GetAppType/GetAppTypePrefix stay loop-free pure string functions (otherwise the rule reports undecided)"},
 		Run: func(c *Ctx) {
+			c.Rule("C11.R17", "every posted entry reaches the releaser", 1)
+			ruleReleaseLoopExhaustive(c, "C11.R17")
 			c.Rule("C11.R16", "the release API frees the posted ip and nothing else", 1)
 			ruleReleaseAPIFreesPostedIP(c, "C11.R16")
 			c.Rule("C11.R15", "the release API frees the posted ip only (no key-wide release outside unbind)", 4)
